@@ -265,6 +265,7 @@ Inductive top :=
 | THwPulse                 (* a verified pulse done by the hardware (no state of the model changes) *)
 | TEnable                  (* a verified enable *)
 | TDisable
+| TNop                     (* nothing requested (an observation point) *)
 | TFire.                   (* the earliest pending delay fires (now = its deadline) *)
 
 Definition toff (td : option Z) (s : tstate) : tstate :=
@@ -277,6 +278,7 @@ Definition tstep (mhd : option Z) (now : Z) (s : tstate) (o : top) : tstate :=
       {| ts_on := true; ts_timed_disable := Some (now + ms); ts_limit := ts_limit s;
          ts_hold := ts_hold s; ts_hold_since := ts_hold_since s |}
   | THwPulse => s
+  | TNop => s
   | TEnable =>
       {| ts_on := true; ts_timed_disable := ts_timed_disable s;
          ts_limit := match mhd, ts_limit s with
@@ -345,15 +347,36 @@ Definition tguard (mhd : option Z) (now : Z) (s : tstate) : bool :=
   (ts_hold s || match ts_limit s with None => true | Some _ => false end) &&     (* a watchdog only under a hold *)
   match mhd with Some d => 0 <=? d | None => true end.
 
-(* observations for the correspondence run (ghost fields excluded) *)
+(* The clock fires every delay that is due before the next request: [texpand] inserts the TFire steps (at most
+   two: there are two named delays) so that the correspondence run does not depend on observing the firings. *)
+Definition fire_if_due (mhd : option Z) (t : Z) (acc : list (Z * top) * tstate) : list (Z * top) * tstate :=
+  let '(h, s) := acc in
+  match next_deadline s with
+  | Some d => if d <? t then (h ++ [(d, TFire)], tstep mhd d s TFire) else acc
+  | None => acc
+  end.
+
+Fixpoint texpand (mhd : option Z) (s : tstate) (h : list (Z * top)) : list (Z * top) :=
+  match h with
+  | [] => []
+  | (t, o) :: r =>
+      let '(f, s2) := fire_if_due mhd t (fire_if_due mhd t ([], s)) in
+      f ++ (t, o) :: texpand mhd (tstep mhd t s2 o) r
+  end.
+
+(* observations for the correspondence run (ghost fields excluded): the state after each request *)
 Definition tobs (s : tstate) : bool * (option Z * option Z) := (ts_on s, (ts_timed_disable s, ts_limit s)).
 Fixpoint tobs_run (mhd : option Z) (s : tstate) (h : list (Z * top)) : list (bool * (option Z * option Z)) :=
   match h with
   | [] => []
-  | (t, o) :: r => let s' := tstep mhd t s o in tobs s' :: tobs_run mhd s' r
+  | (t, o) :: r =>
+      let s2 := snd (fire_if_due mhd t (fire_if_due mhd t ([], s))) in
+      let s' := tstep mhd t s2 o in tobs s' :: tobs_run mhd s' r
   end.
-Definition timer_run (i : option Z * list (Z * top)) : list (bool * (option Z * option Z)) :=
-  tobs_run (fst i) tinit (snd i).
-Definition tobs_eqb (a b : list (bool * (option Z * option Z))) : bool :=
+(* output: the observations, and whether the expanded history is well-timed (it must be) *)
+Definition timer_run (i : option Z * list (Z * top)) : list (bool * (option Z * option Z)) * bool :=
+  (tobs_run (fst i) tinit (snd i), well_timed (fst i) 0 tinit (texpand (fst i) tinit (snd i))).
+Definition tobs_eqb (a b : list (bool * (option Z * option Z)) * bool) : bool :=
   list_eqb (fun x y => Bool.eqb (fst x) (fst y) && option_eqb Z.eqb (fst (snd x)) (fst (snd y)) &&
-                       option_eqb Z.eqb (snd (snd x)) (snd (snd y))) a b.
+                       option_eqb Z.eqb (snd (snd x)) (snd (snd y))) (fst a) (fst b) &&
+  Bool.eqb (snd a) (snd b).
